@@ -137,6 +137,8 @@ def ops_alphabet(full=True, nocase=False):
     O.append(('setopt', b'si', b'x'))
     O.append(('setmulti', b'si', [b'9']))
     O.append(('setmulti', b'ss', [b'u']))
+    O.append(('setmulti', b'si', [b'x']))          # refused: the caller's variable keeps what it holds
+    O.append(('setmulti', b'si', [b'4', b'x']))
     return O
 
 
